@@ -75,6 +75,14 @@ CHECKS = {
          "pre-filter are satisfied iff every inserted requirement is; run against bag.py/query.types() of /repo with "
          "all up-sets generated by <= 3 types as oracle",
          "4 C20", "Coq proof by induction over insertion histories + correspondence + up-set oracle"),
+ "C12": ("add_workflow modelled on top of the add_expr model: for every well-formed workflow (any sharing, any listing "
+         "order, passthrough on/off) the map covers every resource with one node each, every tool's subgraph is the flow "
+         "of its expression fed by its producers (own source nodes with passthrough off), inputs/outputs marked, and with "
+         "passthrough on the graph is the flow of the inlined expression (C12_plugged, C12_inline); source_types "
+         "order-independent and = the Sub-least annotation (C12_source_types_perm/spec); typed half (node types vs the "
+         "inlined expression, WorkflowDict vs WorkflowGraph, every listing order) is implementation-vs-implementation "
+         "testing; one known finding (inference order across tools)",
+         "4 C12", "Coq proof (wiring/sharing by induction on the workflow) + correspondence + isomorphism oracles"),
  "C13": ("tokenizer and the parse_expr/parse_type stack machine modelled as one structurally recursive token machine "
          "over an abstract type checker: every rendering (f x y, f(x,y), (f x) y, redundant brackets, blanks, newlines, "
          "comments, annotations) of every tree parses to the same construction sequence as programmatic building "
